@@ -19,7 +19,7 @@ CHECKS = {
             "lookup, file open/read/merge/write/sync and registry update (C05.R1); no other function writes files or looks at the registry and no "
             "other process-wide state exists (C05.R2); re-export of a recorded type is a no-op by dominance of the `contains` guard (C05.R3); "
             "imports are accumulated in BTreeMap/BTreeSet and no hash- or visit-ordered sequence reaches the buffer (C05.R4); no panic-capable call "
-            "runs under the lock (C05.R5; merge() repaired by d83e876); writer/reader agreement of the import line, markers and DECLARATION_START (R6); declaration blocks never stored in keyed collections nor matched start-anchored (R7); both sort keys derived alike (R8); the blank-line rewrite of doc text is complete (R9); the path->names import table only accumulates and is a set (R10); merge() rewrites no text (R11); the registry key function path::absolute is pure and always cleaned (R12); generate_decl() appends declarations free of empty lines and docs unmodified (R13; repaired by 9550283); only the writer queries the file system (R14). Byte-for-byte confluence of the textual merge over all declaration texts and "
+            "runs under the lock (C05.R5; merge() repaired by d83e876); writer/reader agreement of the import line, markers and DECLARATION_START (R6); declaration blocks never stored in keyed collections nor matched start-anchored (R7); both sort keys derived alike (R8); the blank-line rewrite of doc text is complete (R9); the path->names import table only accumulates and is a set (R10); merge() rewrites no text (R11); the registry key function path::absolute is pure and always cleaned (R12); generate_decl() appends declarations free of empty lines and docs unmodified (R13; repaired by 9550283); only the writer queries the file system (R14); nothing on the write path rewrites text (R15). Byte-for-byte confluence of the textual merge over all declaration texts and "
             "orders is a statement about run-time strings and is NOT decided."),
     "C06": ("DESIGN.md section 3/C06",
             "interprocedural value-origin analysis and dominance on MIR",
@@ -33,13 +33,13 @@ CHECKS = {
             "(R2); ts wins in every merge and from_attrs passes the ts value as receiver (R3); serde parsing is feature-gated (R4, thorough: dead "
             "under --no-default-features); the unknown-key fallback always skips and never errors, and keys are read with parse_any (R5); no arm "
             "consumes `=` twice (R6); value forms serde accepts are accepted or recovered per key (R7; repaired by e6989d5); every "
-            "token-skipping loop tests the token it skips, before advancing (R8); no unjustified panic on the serde path (R9); neither parsed value is altered before merge (R3); the separator is never followed by an untested key read, so a trailing comma is accepted (R11; repaired by d7bba3a); container from_attrs merges serde on every Ok path (R3); all serde lists are folded (R12); delimited groups are read to the end (R13); written values are recorded as written (R14). Equality of bindings for all types under the two "
+            "token-skipping loop tests the token it skips, before advancing (R8); no unjustified panic on the serde path (R9); neither parsed value is altered before merge (R3); the separator is never followed by an untested key read, so a trailing comma is accepted (R11; repaired by d7bba3a); container from_attrs merges serde on every Ok path (R3); all serde lists are folded (R12); delimited groups are read to the end (R13); written values are recorded as written (R14) and not rewritten after the merge (R15). Equality of bindings for all types under the two "
             "spellings is NOT decided beyond these table/merge facts."),
     "C11": ("DESIGN.md section 3/C11",
             "who-may-call, call-graph edge and must-pass-through analysis on MIR",
             "Decides that only export_and_merge/export_to touch the file system and only at the path parameter (C11.R1), that the recursive walk "
             "exports the visited type, walks its dependencies through export_recursive, skips non-exportable types, stops at and returns the first "
-            "error (C11.R2), and that the written path derives from <T as TS>::output_path() of the same T behind its Some-check (C11.R3); the generated output_path() template (R4), the generated export test calling export_all() on the erased type (R5), that every recorded dependency is emitted into visit_dependencies() (R6), that the derived visit_generics() visits and walks into every free parameter (R7), type-argument discipline (R8), the assembly of the emitted impl (R9), and that every export request reaches the next stage or fails (R10). The "
+            "error (C11.R2), and that the written path derives from <T as TS>::output_path() of the same T behind its Some-check (C11.R3); the generated output_path() template (R4), the generated export test calling export_all() on the erased type (R5), that every recorded dependency is emitted into visit_dependencies() (R6), that the derived visit_generics() visits and walks into every free parameter (R7), type-argument discipline (R8), the assembly of the emitted impl (R9), that every export request reaches the next stage or fails (R10), that the visitors decide from the error flag and output_path alone (R12), and that directories are created for the normalised path (R13). The "
             "directory-form/file-form string rule inside generated output_path() is NOT decided."),
     "C13": ("DESIGN.md section 3/C13",
             "iterator-provenance (static receiver types) and forward-flow analysis on MIR of both crates",
